@@ -114,7 +114,9 @@ def crash_states(old, new, prog, max_per_write):
             d = final_content.get(obj)
             if d is None:
                 d = b"\0" * (o[2] if len(o) > 2 else 0)
-            ks = sorted(set([0, 1, len(d) // 3, len(d) // 2, len(d) - 1, len(d)] + list(range(0, len(d) + 1, max(1, len(d) // max_per_write)))))
+            nls = [i + 1 for i, b in enumerate(d) if b == 10]                     # a text file cut exactly after a line (a "complete looking" partial file)
+            nls = nls[::max(1, len(nls) // 10)]
+            ks = sorted(set([0, 1, len(d) // 3, len(d) // 2, len(d) - 1, len(d)] + nls + list(range(0, len(d) + 1, max(1, len(d) // max_per_write)))))
             for k in ks:
                 if 0 <= k <= len(d):
                     t = dict(s)
@@ -200,6 +202,10 @@ def run(tier, seed):
                 time.sleep(0.1)
                 st, old_dump = s.dump()
                 old = snapshot(ud)
+                if pi % 2 == 1:
+                    # the FIRST save after a start (a save may treat the files it finds differently from the files it wrote itself)
+                    s.stop()
+                    s = Server(dct, user_dir=ud, save_seconds=3)
                 learn(rnd.randint(1, 3))
                 st, new_dump = s.dump()
                 # trace the next saves
